@@ -32,17 +32,42 @@ import (
 )
 
 // KnownIssues: key -> true = mask the defect (the test passes), false = let it fail.
-var KnownIssues = map[string]bool{
-	// ParseRTR never compares the Length field of the fixed-size PDUs (every type except Error
-	// Report) with the PDU type's size or with the buffer: a PDU that declares Length=8 but has
-	// type IPv4 Prefix is decoded from the 12 octets FOLLOWING the declared PDU when the caller's
-	// buffer holds more data.  Reproducer: ParseRTR(00 04 0000 00000008 || X) returns an
-	// RTRIPPrefix whose Flags/PrefixLen/MaxLen/Prefix/AS are taken from X (any 12 octets with
-	// X[2]<=32 and X[1]<=X[2]), and Len=8.  Functions: ParseRTR, RTRIPPrefix.DecodeFromBytes,
-	// RTRCommon.DecodeFromBytes (the daemon hands in exactly Length octets, so there the
-	// consequence is only that a wrong Length is not rejected and is kept in the value:
-	// Serialize of such a value panics in make/out-of-range).
-	"rtr-fixed-pdu-ignores-length": true,
+// (empty: rtr-fixed-pdu-ignores-length and rtr-error-report-short-pdu-panics are fixed; their
+// probes below keep the reproducers)
+var KnownIssues = map[string]bool{}
+
+// c19RtrProbes: deterministic reproducers, one per finding (fixed or open), Sig = the key.
+var c19RtrProbes = map[string]func() *verifkit.Failure{
+	// ParseRTR used to decode a fixed-size PDU from the octets FOLLOWING the declared PDU.
+	"rtr-fixed-pdu-ignores-length": func() *verifkit.Failure {
+		hdr := []byte{0, RTR_IPV4_PREFIX, 0, 0, 0, 0, 0, 8}
+		x := []byte{1, 24, 24, 0, 10, 0, 0, 0, 0, 0, 0xfd, 0xe8}
+		m, err := ParseRTR(append(append([]byte{}, hdr...), x...))
+		if err == nil {
+			return verifkit.Failf("rtr-fixed-pdu-ignores-length", "ParseRTR(%x || %x): the PDU declares Length 8 but is decoded from the 12 octets that follow it: %s", hdr, x, c19RtrJSON(m))
+		}
+		return nil
+	},
+	// NewRTRErrorReport indexed errPDU[1] without a length check.
+	"rtr-error-report-short-pdu-panics": func() (f *verifkit.Failure) {
+		defer func() {
+			if r := recover(); r != nil {
+				f = verifkit.Failf("rtr-error-report-short-pdu-panics", "NewRTRErrorReport(CORRUPT_DATA, [00], \"x\") panicked: %v", r)
+			}
+		}()
+		m := NewRTRErrorReport(CORRUPT_DATA, []byte{0}, []byte("x"))
+		if m == nil {
+			return verifkit.Failf("rtr-error-report-short-pdu-panics", "NewRTRErrorReport refuses a one-octet erroneous PDU")
+		}
+		w, err := m.Serialize()
+		if err != nil {
+			return verifkit.Failf("rtr-error-report-short-pdu-panics", "does not serialise: %v", err)
+		}
+		if p, err := ParseRTR(w); err != nil || c19RtrJSON(p) != c19RtrJSON(m) {
+			return verifkit.Failf("rtr-error-report-short-pdu-panics", "Error Report with a one-octet erroneous PDU does not round-trip: %v", err)
+		}
+		return nil
+	},
 }
 
 type c19RtrCase struct {
@@ -175,14 +200,13 @@ func c19RtrPDU(s *verifgen.Src, kind int, st *verifkit.Stats) (RTRMessage, bool)
 		case 1: // an encapsulated valid PDU (not an Error Report)
 			inner, _ := c19RtrPDU(s, s.Intn(8), nil)
 			pdu, _ = inner.Serialize()
-		case 2: // a truncated / arbitrary erroneous PDU (at least the two octets the constructor looks at)
+		case 2: // a truncated / arbitrary erroneous PDU
 			pdu = s.Bytes(2 + s.Len(40))
 			if pdu[1] == RTR_ERROR_REPORT {
 				pdu[1] = 0xfe
 			}
-		default:
-			// (an erroneous PDU shorter than two octets makes NewRTRErrorReport itself panic on
-			// errPDU[1]; that is a constructor precondition, not a codec property, and is not generated)
+		default: // a PDU cut inside its first two octets
+			pdu = s.Bytes(1)
 		}
 		switch s.Intn(3) {
 		case 0:
@@ -306,11 +330,6 @@ func c19RtrCheckDecode(in []byte, st *verifkit.Stats) *verifkit.Failure {
 		return f
 	}
 	if a, b := c19RtrOutcome(ma, ea), c19RtrOutcome(mb, eb); a != b {
-		if in[1] != RTR_ERROR_REPORT && KnownIssues["rtr-fixed-pdu-ignores-length"] {
-			st.Label("known:rtr-fixed-pdu-ignores-length")
-			st.Exclude("rtr-fixed-pdu-ignores-length")
-			return nil
-		}
 		return verifkit.Failf("depends-on-trailing-bytes", "PDU %x (declared Length %d) decodes differently depending on the bytes that follow it: %s vs %s", in[:declared], declared, a, b)
 	}
 	return nil
@@ -460,6 +479,9 @@ func runC19Rtr(c c19RtrCase, st *verifkit.Stats) *verifkit.Failure {
 }
 
 func TestVerifC19_rtr(t *testing.T) {
+	for key, p := range c19RtrProbes {
+		verifkit.RegisterProbe("C19_rtr", key, func(*verifkit.Stats) *verifkit.Failure { return p() })
+	}
 	verifkit.Run(t, "C19_rtr", drawC19Rtr, runC19Rtr)
 }
 
